@@ -54,6 +54,7 @@ func (_this *Reader) Init(config *configuration.Configuration) {
 
 func (_this *Reader) SetReader(reader io.Reader) {
 	_this.reader.Init(reader)
+	_this.bytesRead = 0
 }
 
 func (_this *Reader) ReadUint8() uint8 {
